@@ -296,6 +296,7 @@ class FusionART(BaseART):
             Cluster activation and cache for further processing.
 
         """
+        skip_channels = [self.n + k if k < 0 else k for k in skip_channels]
         activations, caches = zip(
             *[
                 self.modules[k].category_choice(
@@ -345,6 +346,7 @@ class FusionART(BaseART):
         """
         if cache is None:
             raise ValueError("No cache provided")
+        skip_channels = [self.n + k if k < 0 else k for k in skip_channels]
         M, caches = zip(
             *[
                 self.modules[k].match_criterion(
@@ -395,6 +397,7 @@ class FusionART(BaseART):
         """
         if cache is None:
             raise ValueError("No cache provided")
+        skip_channels = [self.n + k if k < 0 else k for k in skip_channels]
         M_bin, caches = zip(
             *[
                 self.modules[k].match_criterion_bin(
